@@ -11,6 +11,7 @@ from harness import hist
 from harness import impl
 from harness import ops
 
+LAST_TXN_OF = []     # transaction index of every statement of the last statement_count() run
 CORE_TABLES = ('resource_providers', 'inventories', 'allocations', 'consumers', 'placement_aggregates',
                'resource_provider_aggregates', 'resource_provider_traits', 'resource_classes', 'traits')
 
@@ -72,6 +73,10 @@ def statement_count(setup, op):
     r, obs = hist.observe(app, op)
     n = len(impl.OBS.stmts)
     ntx = len(impl.OBS.txns)
+    global LAST_TXN_OF
+    LAST_TXN_OF = []
+    for ti, tx in enumerate(impl.OBS.txns):
+        LAST_TXN_OF.extend([ti] * len(tx['stmts']))
     dump = ops.canon_dump(app.raw_dump())
     app.close()
     return n, ntx, obs, dump, list(impl.OBS.stmts)
@@ -146,11 +151,7 @@ def fault_points(setup, op, kind, rollback_first=False, only=None):
                 fired.append(st)
                 if rollback_first:
                     # the database has already rolled the transaction back (e.g. MySQL deadlock victim)
-                    raw = impl.init()['engine'].raw_connection()
-                    try:
-                        raw.rollback()
-                    finally:
-                        raw.close()
+                    impl.OBS.conn.connection.rollback()
                 raise FAULTS[kind]()
         res, o, before, after, executed, txns = run_with(setup, op, on_stmt=on_stmt)
         yield {'desc': '%s%s at statement %d/%d (%s)' % (kind, '+rollback' if rollback_first else '', k, n,
